@@ -709,22 +709,22 @@ Lemma some_step_enabled level n s st :
 Proof.
   intros Hl I T ND. unfold is_done in ND. pose proof (inv_disp n s st I) as D.
   destruct (c_disp st) as [i|i|j| |r] eqn:E; cbn [disp_inv] in D; try discriminate.
-  - exists ADisp. cbn. unfold step_disp. rewrite E.
+  - exists ADisp. cbn [step]. unfold step_disp. rewrite E.
     destruct (i <? n); [destruct (c_latch st)|]; eexists; reflexivity.
   - destruct (c_tokens st) as [|k] eqn:Tk.
     + unfold tinv in T. rewrite Tk in T.
       destruct (load_pos (c_workers st)) as (w & p & Hw & Hp); [lia|].
       destruct (worker_enabled current s st w p Hw Hp) as (st' & H). exists (AWorker w), st'. exact H.
-    + exists ADisp. cbn. unfold step_disp. rewrite E, Tk. eexists; reflexivity.
+    + exists ADisp. cbn [step]. unfold step_disp. rewrite E, Tk. eexists; reflexivity.
   - destruct D as (L & Lj & C). destruct (j <? n) eqn:Lt.
-    + apply Nat.ltb_lt in Lt. destruct (nth_error (c_workers st) j) as [p|] eqn:Ep.
+    + pose proof Lt as Lt'. apply Nat.ltb_lt in Lt'. destruct (nth_error (c_workers st) j) as [p|] eqn:Ep.
       * destruct (committed p) eqn:Cp.
-        -- exists ADisp. cbn. unfold step_disp. rewrite E, Lt, Ep, Cp. eexists; reflexivity.
+        -- exists ADisp. cbn [step]. unfold step_disp. rewrite E, Lt, Ep, Cp. eexists; reflexivity.
         -- assert (Hp : p <> WFinished) by (intros ->; discriminate).
            destruct (worker_enabled current s st j p Ep Hp) as (st' & H). exists (AWorker j), st'. exact H.
       * apply nth_error_None in Ep. lia.
-    + exists ADisp. cbn. unfold step_disp. rewrite E, Lt. eexists; reflexivity.
-  - exists ADisp. cbn. unfold step_disp. rewrite E. eexists; reflexivity.
+    + exists ADisp. cbn [step]. unfold step_disp. rewrite E, Lt. eexists; reflexivity.
+  - exists ADisp. cbn [step]. unfold step_disp. rewrite E. eexists; reflexivity.
 Qed.
 
 (* while executeTxsConcurrent has not returned, some goroutine can move *)
